@@ -16,6 +16,7 @@ pub mod c07;
 pub mod rules;
 pub mod c10;
 pub mod c12;
+pub mod c16;
 pub mod pat;
 pub mod c19;
 pub mod c20;
